@@ -4,6 +4,7 @@ package zz_verif
 
 import (
 	"context"
+	"fmt"
 
 	ipfslog "berty.tech/go-ipfs-log"
 	"berty.tech/go-ipfs-log/entry"
@@ -334,6 +335,11 @@ func H_C11() {
 	vx.Assume(L.Len() > 0)
 	all := L.Values().Slice()
 	withTimeout := vx.Param("TIMEOUT", 0) == 1
+	if vx.Param("CTXERR", 0) == 1 {
+		// the block store gives up on a block by itself and says so with a context error of its own (a per-request
+		// deadline inside the store); the load's context is alive: the block is skipped like any other failure
+		h.api.absentErr = fmt.Errorf("store gave up on the block: %w", context.DeadlineExceeded)
+	}
 	kinds := 3
 	if withTimeout {
 		kinds = 4
